@@ -32,9 +32,11 @@
 //	                         any other Ready      : publish psnap pents phs wait send advance
 //	ready     n            run the next sub-step of n's in-flight Ready:
 //	                         publish = hand CommittedEntries/Snapshot to the apply queue
-//	                         psnap   = storage.ApplySnapshot(rd.Snapshot)      (durable)
+//	                         psnap   = the snapshot is saved but not yet effective: on restart node/raft.go ignores
+//	                                   a snapshot newer than the persisted commit index (wal.ValidSnapshotEntries)
 //	                         pents   = storage.Append(rd.Entries)             (durable; WAL writes entries first)
-//	                         phs     = storage.SetHardState(rd.HardState)     (durable)
+//	                         phs     = storage.SetHardState(rd.HardState)     (durable); a Ready that carries a
+//	                                   snapshot becomes durable here as a whole (ApplySnapshot, Append, SetHardState)
 //	                         wait    = if the Ready carries a conf change or snapshot: drain the apply
 //	                                   queue now, feeding conf changes back through
 //	                                   ApplyConfChange + ConfChangedCh + HandleConfChanged
